@@ -449,6 +449,122 @@ theorem occurrence_values_in_order (P : Prog) (pre post vs : List Str) (name key
     rw [this]
     exact hidle post hpost
 
+/-- **The same for an occurrence whose first value is attached** (`--name=v₀ v₁ … vₖ`): the attached value is saved
+first (`o1`), the detached ones follow while they are acceptable, and after the whole parse the record is `saveAll`
+of `v₁ … vₖ` onto `o1` — i.e. `saveAll` of `v₀, v₁ … vₖ` onto what `pre` had left. -/
+theorem occurrence_values_in_order_attached (P : Prog) (pre post vs : List Str) (name key v0 : Str) (oid : Nat) (o1 o' : Opt)
+    (he : (run ext mode P pre).err = none) (hc : (run ext mode P pre).ctx = .idle)
+    (hn : name ≠ []) (hne : ∀ c ∈ name, c ≠ chEq) (hv0 : v0 ≠ [])
+    (hr : resolve (P.node (run ext mode P pre).cur) name = [key])
+    (hl : lookup key (P.node (run ext mode P pre).cur).opts = some oid)
+    (hoid : oid < P.opts.length)
+        (hvs : vs ≠ [])
+    (hroom : (1 + vs.length : Int) ≤ (P.opt oid).max) (hmin : (P.opt oid).min ≤ 1 + vs.length)
+    (hacc : AllAcceptable ext mode (P.opt oid) 1 vs)
+    (hs0 : save ext (P.node 0).mapKeysToLower (matched (run ext mode P pre) oid key) [v0] = .ok o1)
+    (hs : saveAll ext (P.node 0).mapKeysToLower o1 vs = .ok o')
+    (hend : (1 + vs.length : Int) = (P.opt oid).max ∨ post = [] ∨
+      ∃ t rest, post = t :: rest ∧ (looksLikeOption t mode = true ∨ t = dashdash))
+    (hpost : ¬ Mentioned mode P post oid) :
+    (parseArgs ext mode P (pre ++ (chDash :: chDash :: (name ++ chEq :: v0)) :: (vs ++ post))).P.opt oid = o' := by
+  have hsh := run_shape ext mode P pre
+  have hst := run_static_eq ext mode P pre oid
+  unfold parseArgs
+  rw [run_append]
+  simp only [List.foldl_cons, List.foldl_append]
+  generalize run ext mode P pre = s at he hc hr hl hs0 hsh hst
+  rw [← hsh.1] at hr hl hs0 hs
+  have hoid' : oid < s.P.opts.length := by rw [hsh.2]; exact hoid
+  -- the option token opens the occurrence
+  have hopt : isOption (chDash :: chDash :: (name ++ chEq :: v0)) mode = ([⟨name, [v0]⟩], true) :=
+    long_attached name v0 mode hn hne hv0
+  have hne2 : chDash :: chDash :: (name ++ chEq :: v0) ≠ dashdash := long_token_ne_dashdash name (chEq :: v0) hn
+  have hst1 : o1.static = (P.opt oid).static := (save_static ext _ _ _ _ hs0).trans hst
+  have hmaxs : (s.P.opt oid).max = (P.opt oid).max := static_max hst
+  have hmins : (s.P.opt oid).min = (P.opt oid).min := static_min hst
+  have hlenpos : 0 < vs.length := by cases vs with | nil => exact absurd rfl hvs | cons _ _ => simp
+  have hopen : ((([v0] : List Str).length : Nat) : Int) < o1.max := by
+    simp only [List.length_singleton, static_max hst1]; omega
+  rw [step_head_option ext mode s _ [⟨name, [v0]⟩] he hc hne2 hopt,
+    drain_single_open ext (headState s (chDash :: chDash :: (name ++ chEq :: v0))) ⟨name, [v0]⟩ key oid o1 he hr hl hs0 hopen]
+  -- the values are collected
+  have hP : (headState s (chDash :: chDash :: (name ++ chEq :: v0))).P = s.P := rfl
+  simp only [hP, List.length_singleton]
+  have hget : (s.P.setOpt oid o1).opt oid = o1 := opt_setOpt_same s.P oid _ hoid'
+  have hmst : o1.static = (P.opt oid).static := hst1
+  have hcol := collect ext mode vs
+    { headState s (chDash :: chDash :: (name ++ chEq :: v0)) with P := s.P.setOpt oid o1, ctx := .collecting oid 1, pending := [] }
+    oid 1 o' he rfl rfl (by simpa [Prog.setOpt] using hoid')
+    (by show ((1 + vs.length : Nat) : Int) ≤ ((s.P.setOpt oid o1).opt oid).max
+        rw [hget, static_max hmst]; simpa using hroom)
+    hvs
+    (by show AllAcceptable ext mode ((s.P.setOpt oid o1).opt oid) 1 vs
+        rw [hget, allAcceptable_congr ext mode hmst]; exact hacc)
+    (by show saveAll ext ((s.P.setOpt oid o1).node 0).mapKeysToLower
+          ((s.P.setOpt oid o1).opt oid) vs = .ok o'
+        rw [hget]; exact hs)
+  rw [hcol]
+  have hso : o'.static = (P.opt oid).static := (saveAll_static ext _ vs _ o' hs).trans hmst
+  -- what follows cannot touch the option any more
+  have hPfin : ∀ c, ((collected
+      { headState s (chDash :: chDash :: (name ++ chEq :: v0)) with P := s.P.setOpt oid o1, ctx := .collecting oid 1, pending := [] }
+      oid 1 vs o').P.opt oid = o') ∧
+      (∀ n, ({ collected
+      { headState s (chDash :: chDash :: (name ++ chEq :: v0)) with P := s.P.setOpt oid o1, ctx := .collecting oid 1, pending := [] }
+      oid 1 vs o' with ctx := c }).P.node n = P.node n) := by
+    intro c
+    refine ⟨?_, fun n => ?_⟩
+    · simp only [collected]
+      exact opt_setOpt_same _ oid o' (by simpa [Prog.setOpt] using hoid')
+    · simp only [collected]; exact hsh.1 n
+  generalize hS : collected
+      { headState s (chDash :: chDash :: (name ++ chEq :: v0)) with P := s.P.setOpt oid o1, ctx := .collecting oid 1, pending := [] }
+      oid 1 vs o' = S at hPfin
+  have hSctx : S.ctx = if ((1 + vs.length : Nat) : Int) < o'.max then .collecting oid (1 + vs.length) else .idle := by
+    rw [← hS]; rfl
+  have hSpend : S.pending = [] := by rw [← hS]; rfl
+  have hSerr : S.err = none := by rw [← hS]; exact he
+  have hSopt : S.P.opt oid = o' := (hPfin .idle).1
+  have hSnodes : ∀ n, S.P.node n = P.node n := (hPfin S.ctx).2
+  have hidle : ∀ (post : List Str), ¬ Mentioned mode P post oid →
+      (finish ext (post.foldl (step ext mode) { S with ctx := .idle })).P.opt oid = o' := by
+    intro post hnm
+    have := later_unmentioned_keeps ext mode { S with ctx := .idle } post oid
+      (by rw [mentioned_congr mode (P' := S.P) (P := P) hSnodes]; exact hnm) hSpend
+      (fun o i h => by cases h)
+    rw [this]; exact hSopt
+  by_cases hfull : ((1 + vs.length : Nat) : Int) < o'.max
+  · -- the occurrence is still open: it ends by the end of the command line or by a refused token
+    simp only [hfull, ↓reduceIte] at hSctx
+    have hmax' : o'.max = (P.opt oid).max := static_max hso
+    have hmin' : ¬ ((1 + vs.length : Nat) : Int) < (S.P.opt oid).min := by
+      rw [hSopt, static_min hso]; omega
+    rcases hend with h | h | ⟨t, rest, h, hr⟩
+    · rw [hmax'] at hfull; omega
+    · subst h
+      simp only [List.foldl_nil]
+      unfold finish
+      simp only [hSerr, hSctx, hmin', Option.isSome_none, Bool.false_eq_true, ↓reduceIte, hSpend, finishDrain]
+      exact hSopt
+    · subst h
+      simp only [List.foldl_cons]
+      rw [refused_as_idle ext mode S oid (1 + vs.length) t hSerr hSctx hSpend hmin' hr]
+      exact hidle (t :: rest) hpost
+  · simp only [hfull, ↓reduceIte] at hSctx
+    have : S = { S with ctx := .idle } := by cases S; simp_all
+    rw [this]
+    exact hidle post hpost
+
+
+
+/-! `-v --list=c d e --verbose x`: the occurrence starts with an attached value and takes two more. -/
+example :
+    ((parseArgs Demo.ext .normal Demo.prog
+      [b "-v", b "--list=c", b "d", b "e", b "--verbose", b "x"]).P.opt 2).value = .ss [b "c", b "d", b "e"] ∧
+    (saveAll Demo.ext false (matched (run Demo.ext .normal Demo.prog [b "-v"]) 2 (b "list")) [b "c", b "d", b "e"]).toOption.map (·.value)
+      = some (.ss [b "c", b "d", b "e"]) := by
+  decide
+
 /-! Non-vacuity: greedy consumption stops at an option-looking token, values kept in order. -/
 example : ((parseArgs Demo.ext .normal Demo.prog [b "--list", b "a", b "b", b "--verbose", b "--list=c", b "d", b "e", b "f"]).P.opt 2).value
           = .ss [b "a", b "b", b "c", b "d", b "e"] ∧
